@@ -181,6 +181,8 @@ def native_run(target, inputs, choices):
                 fn = cls.__dict__.get(mname)
                 if fn is None or not callable(getattr(fn, '__func__', fn)):
                     return None
+                if isinstance(fn, staticmethod):
+                    return fn.__func__
                 return _types.MethodType(getattr(fn, '__func__', fn), obj)
             if isinstance(getattr(st, handle), Obj):
                 object.__setattr__(getattr(st, handle), '_fallback', nfb)
@@ -265,7 +267,12 @@ def explore_chunk(target, work, limit, carve_names, tier, cross_check=True):
                     return None
                 _, iglobs = _ex.module_globals(ifile)
                 rep.inlined[icls + '.' + mname] = iex.describe()
-                return BoundClosure(Closure(iex.node, Env(globs=iglobs), it, icls + '.' + mname), obj)
+                clo_ = Closure(iex.node, Env(globs=iglobs), it, icls + '.' + mname)
+                import ast as _ast
+                decos = [_ast.unparse(d) for d in iex.node.decorator_list]
+                if 'staticmethod' in decos:
+                    return clo_
+                return BoundClosure(clo_, obj)
             if isinstance(getattr(st, handle), Obj):
                 object.__setattr__(getattr(st, handle), '_fallback', fb)
         out = None
